@@ -761,6 +761,28 @@ def source_registration(ctx):
             for op, l, r_ in cmps)
         ctx.ob(R, 'add_source-guard|' + fn.fq, guarded, c,
                'add_source is not restricted to source-directory files')
+        # ... and to nothing else (besides the caller's dist flag): a file
+        # named by a Path object is read by the build just like one named
+        # by a string
+        extra = []
+        raise_tests = set()
+        for n_ in walk_no_nested(fn.node):
+            if isinstance(n_, ast.If) and n_.body and isinstance(
+                    n_.body[-1], ast.Raise):
+                raise_tests |= {id(x) for x in ast.walk(n_.test)}
+        for t, pos in F.guard_truths(c, fn):
+            if id(t) in raise_tests:
+                continue            # argument validation
+            a = F.atoms(t, fn)
+            if has(a, 'root') and has(a, 'Root', 'srcdir'):
+                continue
+            if param_of(a, 'dist') or has(a, 'dist'):
+                continue
+            extra.append(unparse(t))
+        ctx.ob(R, 'add_source-only-root-guard|' + fn.fq, not extra, c,
+               'add_source is additionally conditional on {}: some files '
+               'the build reads from srcdir are not registered'.format(
+                   '; '.join(extra)[:120]))
     for want, what, depth in (
             ('bfg9000.builtins.file_types:static_file', 'files named by the '
              'script', 1),
